@@ -33,6 +33,13 @@ CLAIMED = {
  "C17": ("exploration", "bounded exhaustive enumeration of accepted inputs with an OpenAPI 3.0.3 structural validator; panics caught per case",
          "Every accepted member of the families is exported with ToOpenAPIJson/ToOpenAPIJsonIndent: no panic; either an error or a document in which every HTTP interaction is paths[path][method], every {parameter} is a required path parameter, every $ref resolves, every user type is a component and response keys are status codes.",
          "Trusts internal/ref/oas.go; an error return is accepted as the property allows."),
+
+ "C03": ("fault_enumeration", "exhaustive single-fault injection: every generated valid model x every fault class x every applicable site x layouts (incl. fault inside a pasted MACRO body / an INCLUDEd file)",
+         "For every valid model within the node budget, every fault class of the property is injected at every site where it applies; the faulty project must be rejected with the message of the class, in the file and on the line of the offending directive as recorded by the renderer's position map.",
+         "Trusts the renderer's position map and the class -> message table in internal/checks/c03.go; classes where the language leaves the offending directive open (similar paths) accept either."),
+ "C07": ("exploration", "bounded exhaustive enumeration of rejected projects (all include graphs up to k files x fault kind x position x line ending; all single-fault documents; all directive-instance sequences) with an independent location/trace reference",
+         "For every rejected member: the error names a file of the project, an index inside it, the line/column recomputed independently from that index, the text of that line as quote, and Error() is the message followed by exactly the chain of INCLUDE directives of the reference include expansion, innermost first.",
+         "Trusts internal/ref/location.go and the reference include expansion in internal/checks/c07.go; files with mixed line endings are not judged."),
 }
 
 NOT_YET = {}
